@@ -30,8 +30,6 @@ Fixpoint pm_zs_of_string (s : string) : list Z :=
 Lemma pm_scope_zname_ok : forall v, pm_scope_zname v = pm_zs_of_string (pm_scope_name v).
 Proof. intros [| | |[]]; reflexivity. Qed.
 
-(* the caches of the joins loop are keyed by object identity resp. type identity; joinAttrs is an ordered set *)
-Definition pm_text_ok (f : option string) (expected : string) : Prop := match f with Some x => x = expected | None => True end.
 
 Lemma pm_source_facts :
   pm_prefix_ok f_pm_query_prefix pm_query_prefix /\ pm_guard_ok f_pm_query_guard /\
@@ -41,6 +39,5 @@ Lemma pm_source_facts :
   pm_prefix_ok f_pm_join_prefix pm_query_prefix /\ pm_guard_ok f_pm_join_guard /\
   pm_navs_ok f_pm_nav_host PmHost /\ pm_navs_ok f_pm_nav_service PmService /\ pm_guard_ok f_pm_bind_guard /\
   pm_guard_ok f_pm_perm_ns_private /\
-  pm_text_ok f_pm_join_cache_key "Object*" /\ pm_text_ok f_pm_join_type_cache_key "Type*" /\
-  pm_text_ok f_pm_join_attrs_container "std::set<String>".
+  pm_guard_ok f_pm_join_cache_by_identity /\ pm_guard_ok f_pm_join_type_cache_by_identity /\ pm_guard_ok f_pm_join_attrs_sorted.
 Proof. cbv. repeat split. Qed.
